@@ -285,7 +285,7 @@ def check_conc(pid, tier, seed):
         free.append({"id": "%s-free%d" % (pid, k), "mode": "free", "world": ("real" if k % 2 == 0 else "sim"), "prog": prog,
                      "nreaders": 4, "readsEach": (150, 400)[ti], "withCloser": closer, "withStable": True,
                      "segSize": rng.choice([60, 80, 200, 4096]), "sched": [], "seed": seed * 1000 + k,
-                     "preload": rng.randint(0, 6), "closeAfter": rng.randint(0, n)})
+                     "preload": rng.randint(0, 6), "closeAfter": rng.randint(0, n), "stableClients": 3})
     # hot-tail stress (no race detector: speed matters): many readers spinning on the index being appended / the newest one
     hot = []
     for k in range((3, 12)[ti]):
@@ -299,6 +299,12 @@ def check_conc(pid, tier, seed):
         hot.append({"id": "%s-seg%d" % (pid, k), "mode": "segstress", "world": "sim", "prog": ["store"] * 20000, "nreaders": 0,
                     "readsEach": 0, "withCloser": False, "withStable": False, "segSize": 4 << 20, "sched": [], "seed": seed + k,
                     "preload": 0, "closeAfter": 0, "hotReaders": (2, 8, 4, 1)[k % 4] * NCPU})
+    # entries above the 64 KiB read buffer (two ReadAt calls per read): a second reader runs between the two reads of
+    # the first one, in the tail and in sealed segments
+    for k, seg in enumerate((1 << 20, 100000)):
+        hot.append({"id": "%s-big%d" % (pid, k), "mode": "bigread", "world": "sim", "prog": [], "nreaders": 2, "readsEach": 1,
+                    "withCloser": False, "withStable": False, "segSize": seg, "sched": [], "seed": seed + 17 * k, "preload": 0,
+                    "closeAfter": 0})
     htrace, _, _ = run_conc(hot, wd, "hot")
     viols += locate(htrace, judge(htrace, wd, stats))
     stats["hot_reads"] = sum(json.loads(l).get("hotReads", 0) for l in open(htrace) if '"hotReads"' in l)
@@ -373,6 +379,29 @@ def c13_stage(seed, tier, stats):
                      "preload": rng.randint(0, 4), "closeAfter": 0})
     trace, _, _ = run_conc(scen, wd, "c13")
     vs = [v for v in locate(trace, judge(trace, wd, stats)) if v["clause"] in ("FilesNotReclaimed", "Panic", "Deadlock")]
+    byid = {s["id"]: s for s in scen}
+    return [dict(v, scenario_obj=byid.get(v["scenario"])) for v in vs], len(scen)
+
+
+def c08_stage(seed, tier, stats):
+    """C08 'across any interleaving': several StableStore clients (SetUint64/GetUint64, one key each, plus Set/Get) run
+    concurrently with each other, with appends, truncations and rotations, under the race detector; each client must read
+    back what it wrote last (ConcJudge clause StableWrong), no panic, no data race in raft-wal."""
+    ti = 0 if tier == "quick" else 1
+    build(["concdrive"], race=True)
+    wd = scratch("verif-C08c-")
+    rng = random.Random(seed)
+    scen = []
+    for k in range((6, 40)[ti]):
+        n = rng.randint(8, 30)
+        prog = [rng.choice(["store", "store", "delh", "delt"]) for _ in range(n)]
+        scen.append({"id": "C08c-free%d" % k, "mode": "free", "world": ("real" if k % 2 == 0 else "sim"), "prog": prog, "nreaders": 1,
+                     "readsEach": 20, "withCloser": False, "withStable": True, "segSize": rng.choice([60, 80, 4096]), "sched": [],
+                     "seed": seed * 91 + k, "preload": rng.randint(0, 3), "closeAfter": 0, "stableClients": 4})
+    trace, races, stderr = run_conc(scen, wd, "c08", race=True)
+    vs = [v for v in locate(trace, judge(trace, wd, stats)) if v["clause"] in ("StableWrong", "StableError", "Panic", "Deadlock")]
+    if races:
+        vs.append({"clause": "DataRace", "scenario": scen[0]["id"], "event": {"report": stderr[:3000]}})
     byid = {s["id"]: s for s in scen}
     return [dict(v, scenario_obj=byid.get(v["scenario"])) for v in vs], len(scen)
 
